@@ -69,7 +69,13 @@ type fixedProg struct {
 	Case
 	slow      bool // fewer repetitions
 	many      bool // cheap and order-sensitive: 40 in-process repetitions
+	noGMW     bool // contains a division: the GMW divider has millions of gates
 	noHistory bool
+}
+
+func noGMW(p fixedProg) fixedProg {
+	p.noGMW = true
+	return p
 }
 
 func slowRepo(name string, sizes [][]int) fixedProg {
@@ -88,7 +94,8 @@ func lib(name, main string) fixedProg {
 }
 
 // fixedPrograms is the list of repository programs (measured: each compiles
-// in well under a second; the thorough tier adds the expensive ones) and of
+// in at most 0.5 s with at most 100 MB RSS under every option combination
+// used; the thorough tier adds three programs of about 1 s / 110 MB) and of
 // small mains over the repository's library packages that define
 // package-level variables (crypto/aes, crypto/curve25519, encoding/hex,
 // crypto/ed25519/internal/edwards25519).  Nothing here imports crypto/sha512.
@@ -98,11 +105,11 @@ func fixedPrograms(thorough bool) []fixedProg {
 		repo("testsuite/bytes/compare.mpcl", [][]int{{64}, {64}}),
 		repo("testsuite/bytes/has_prefix.mpcl", [][]int{{64}, {32}}),
 		repo("apps/garbled/examples/add.mpcl", nil),
-		slowRepo("apps/garbled/examples/div.mpcl", nil),
+		noGMW(slowRepo("apps/garbled/examples/div.mpcl", nil)),
 		repo("apps/garbled/examples/hamming.mpcl", nil),
 		slowRepo("apps/garbled/examples/key-import.mpcl", nil),
 		repo("apps/garbled/examples/credit.mpcl", nil),
-		repo("apps/garbled/examples/rps.mpcl", nil),
+		noGMW(repo("apps/garbled/examples/rps.mpcl", nil)),
 		slowRepo("testsuite/crypto/sha1.mpcl", [][]int{{64}, {64}}),
 		slowRepo("apps/garbled/examples/aesblock2.mpcl", nil),
 		lib("hex+aes", `package main
@@ -191,15 +198,14 @@ func F(x uint8) uint8 {
 `},
 		}}})
 	if thorough {
+		// Measured with every option combination: at most 1.2 s and
+		// 110 MB RSS per compilation.  Larger examples (rsa, encrypt,
+		// aescbc, ed25519, and itoa for GMW: millions of gates, GBs of
+		// memory) are deliberately left out.
 		for _, n := range []string{
 			"apps/garbled/examples/chacha20block.mpcl",
 			"apps/garbled/examples/aesexpand.mpcl",
-			"testsuite/strconv/itoa.mpcl",
 			"testsuite/crypto/sha256_block.mpcl",
-			"testsuite/crypto/sha256_block_pad.mpcl",
-			"testsuite/crypto/rsa.mpcl",
-			"apps/garbled/examples/encrypt.mpcl",
-			"apps/garbled/examples/aescbc.mpcl",
 		} {
 			p := repo(n, nil)
 			p.slow = true
